@@ -9,6 +9,9 @@ if ! git diff --quiet; then echo "/repo has uncommitted changes"; exit 2; fi
 if ! git apply --check "$patch" 2>/dev/null; then echo "patch does not apply: $patch"; exit 2; fi
 git apply "$patch"
 cd /verif
+# evidence and generated tables written while /repo is changed are scratch: keep the ones of the clean tree
+saved=$(mktemp -d /tmp/selftest_saved.XXXXXX)
+cp -r evidence "$saved/evidence"; cp -r lean/AnyVecModel/Gen "$saved/Gen"
 for p in "$@"; do
   out=$(VERIF_NOSHRINK=1 bin/check "$p" --tier quick 2>&1); rc=$?
   v=$(echo "$out" | grep -m1 "^VIOLATION")
@@ -18,5 +21,5 @@ for p in "$@"; do
   else echo "$p ERROR rc=$rc :: $(echo "$out" | tail -3 | tr '\n' ' ' | cut -c1-300)"; fi
 done
 git -C /repo checkout -- . 
-git -C /verif checkout -- lean/AnyVecModel/Gen 2>/dev/null
+rm -rf evidence lean/AnyVecModel/Gen; cp -r "$saved/evidence" evidence; cp -r "$saved/Gen" lean/AnyVecModel/Gen; rm -rf "$saved"
 rm -rf /verif/replays
